@@ -20,6 +20,10 @@ PROPS = {
              "Seeded search over interleavings of the real SimpleTimers loop (on the fake clock), its worker jobs and 1-3 clients calling New/StopTimers/StopOthers/StopAllTimers with reused ids; oracle over the recorded history: no callback start after a covering stop returned, a live timer is removed only by a covering stop or by itself, no callback before its interval elapsed.",
              "trusted: harness bookkeeping by kernel sequence numbers and fake-clock stamps; preemption points are lock/channel operations and harness callbacks",
              SIM + "; history oracle on the fake clock"),
+    "C24": P("storeh",
+             "Seeded search over interleavings of 2-4 clients calling SetBallot/SetProposal/lookups on colliding keys of a real TempPool over real goleveldb (memory storage); history checked with porcupine against a write-once register per key; quiescent reads stable, byte-identical, consistent by hash and by point, unchanged after re-creating the pool; clean-up daemon run on the fake clock must only remove entries at least the configured depth (read from the pool) below the newest height.",
+             "trusted: porcupine, harness identification of returned objects by bytes; goleveldb runs as shipped on memory storage",
+             SIM + "; porcupine write-once-register model + quiescent invariants"),
 }
 
 NOT_APPLICABLE = {
